@@ -26,6 +26,8 @@ import PhQVerif.Theory.Direction
 import PhQVerif.Checkers
 import PhQVerif.Generated.Obl_C10dir
 import PhQVerif.Generated.Obl_C10mag
+import PhQVerif.Generated.Obl_C10scale
+import PhQVerif.Theory.Arith
 
 namespace PhQVerif.Props.C10
 open PhQVerif Generated
@@ -82,7 +84,69 @@ theorem rebuild (c : List ℝ) (hpos : 0 < (c.map (· ^ 2)).sum) :
     (c.map fun ci => Real.sqrt (c.map (· ^ 2)).sum * (ci / Real.sqrt (c.map (· ^ 2)).sum)) = c :=
   magnitude_times_direction c hpos
 
+/-- **C10 (scalar × direction constructors).** Every constructor of a vector quantity from a scalar
+quantity and a direction, in either argument order, stores in slot `i` the one correctly rounded
+product of the scalar and the direction's component `i` — for all values. With `magnitudes` and
+`every_path_normalises` this is what `Q(q.Magnitude(), q.Direction())` computes: `|q| · (qᵢ / |q|)` in
+slot `i`, which `rebuild` shows to be `qᵢ` over the reals. -/
+theorem scalar_times_direction_constructors :
+    ∀ e ∈ quantityEntries, e.isScaleDirCtor classes = true →
+      ∃ outs, e.numOuts = some outs ∧ ∃ n sIdx dOff, outs.length = n ∧
+        ((sIdx = 0 ∧ dOff = 1 ∧ e.argSizes = [1, n]) ∨ (sIdx = n ∧ dOff = 0 ∧ e.argSizes = [n, 1])) ∧
+        ∀ i ex, outs[i]? = some ex → ∀ (L : Libm) (env : Nat → Fl),
+          ∃ u v, IsStoredOrCast e.fm (env sIdx) u ∧ IsStoredOrCast e.fm (env (dOff + i)) v ∧
+            ex.evalF L env = Fl.mul e.fm.fmt u v := by
+  intro e he hk
+  have h : Chk.C10scale e = true := List.all_eq_true.mp Obl.C10scale e he
+  simp only [Entry.isScaleDirCtor, Bool.and_eq_true, beq_iff_eq] at hk
+  obtain ⟨hkind, hargs⟩ := hk
+  simp only [Chk.C10scale, checkScaleDir, hkind, bne_self_eq_false, Bool.false_or] at h
+  rcases hargs' : e.args with _ | ⟨a, _ | ⟨b, _ | _⟩⟩
+  · simp [hargs'] at hargs
+  · cases a <;> simp [hargs'] at hargs
+  · cases a <;> cases b <;> simp only [hargs'] at hargs h <;> try (simp at hargs)
+    rename_i a b
+    by_cases h1 : (classIsDirection classes b && !classIsDirection classes a && classComps classes a == 1) = true
+    · simp only [h1, if_true, Bool.and_eq_true, beq_iff_eq] at h
+      obtain ⟨⟨_, hsz⟩, hout⟩ := h
+      cases ho : e.numOuts with
+      | none => simp [ho] at hout
+      | some outs =>
+        simp only [ho, Bool.and_eq_true, beq_iff_eq] at hout
+        refine ⟨outs, rfl, classComps classes b, 0, 1, hout.1, Or.inl ⟨rfl, rfl, hsz⟩, ?_⟩
+        intro i ex hi L env
+        have hall := hout.2
+        simp only [allIdx, List.all_eq_true] at hall
+        have hmem : (ex, i) ∈ outs.zipIdx := by
+          rw [List.mem_zipIdx_iff_getElem?]; simpa using hi
+        obtain ⟨u, v, hu, hv, hev⟩ := isBinOf_sound (by decide) (hall _ hmem) L env
+        exact ⟨u, v, hu, hv, hev⟩
+    · have h2 : (classIsDirection classes a && !classIsDirection classes b && classComps classes b == 1) = true := by
+        rcases hargs with h' | h'
+        · exact absurd (by simpa using h') h1
+        · simpa using h'
+      simp only [h1, h2, if_true, Bool.false_eq_true, if_false, Bool.and_eq_true, beq_iff_eq] at h
+      obtain ⟨⟨_, hsz⟩, hout⟩ := h
+      cases ho : e.numOuts with
+      | none => simp [ho] at hout
+      | some outs =>
+        simp only [ho, Bool.and_eq_true, beq_iff_eq] at hout
+        refine ⟨outs, rfl, classComps classes a, classComps classes a, 0, hout.1, Or.inr ⟨rfl, rfl, hsz⟩, ?_⟩
+        intro i ex hi L env
+        have hall := hout.2
+        simp only [allIdx, List.all_eq_true] at hall
+        have hmem : (ex, i) ∈ outs.zipIdx := by
+          rw [List.mem_zipIdx_iff_getElem?]; simpa using hi
+        obtain ⟨u, v, hu, hv, hev⟩ := isBinOf_sound (by decide) (hall _ hmem) L env
+        refine ⟨v, u, hv, ?_, ?_⟩
+        · simpa using hu
+        · rw [hev]; exact Fl.mul_comm _ _ _
+  · simp [hargs'] at hargs
+
 /-! ### Non-vacuity -/
+
+example : (f64.«Displacement::ctor(Length,Direction)»).isScaleDirCtor classes = true := by decide
+
 
 example : (f64.«Velocity::Direction()»).producesDirection classes = true := by decide
 example : (f32.«Direction::Set(num,num,num)»).producesDirection classes = true := by decide
